@@ -31,7 +31,7 @@ def pitch_token(step, alter, octave):
     return p + ("#" * a if a > 0 else "-" * (-a))
 
 
-def encode(asc):
+def encode(asc, same_part=False):
     """-> (text, expected) ; expected = {"spines": [ {part, staff, notes:[(onset_q, dur_q, step, alter, octave, grace)], "measures":[q], "timesigs":[(q,b,t)], "key": fifths, "clef": (sign, line)} ]}
     Spines are written right-to-left as in Humdrum practice (lowest staff first)."""
     spines = []
@@ -119,6 +119,9 @@ def encode(asc):
     # header
     ncol = len(cols)
     rows = [["**kern"] * ncol, ["*staff%d" % (i + 1) for i in range(ncol)][::-1] if False else ["*staff%d" % (c["st"] + 2 * c["pi"]) for c in cols]]
+    if same_part:
+        # all spines belong to one instrument (e.g. the staves of a piano part)
+        rows.append(["*part1"] * ncol)
     rows.append(["*clef%s%d" % (c["clef"]["sign"], c["clef"]["line"]) if c["clef"] else "*" for c in cols])
 
     def keytok(ks):
